@@ -189,7 +189,8 @@ func c11Handler(c *Ctx) {
 	if fn == nil {
 		return
 	}
-	decs := ssax.CallsTo(fn, load.Module+"/airgapped.(Machine).decryptDataFromParticipant")
+	// (decryptDataFromParticipant is expanded into the handler — load.flatten)
+	decs := ssax.CallsTo(fn, "github.com/corestario/kyber/encrypt/ecies.Decrypt")
 	stores := ssax.Calls(fn, false, func(ci ssa.CallInstruction) bool { o := ssax.CalleeObj(ci); return o != nil && o.Name() == "StoreDeal" })
 	procs := ssax.Calls(fn, false, func(ci ssa.CallInstruction) bool {
 		o := ssax.CalleeObj(ci)
